@@ -143,8 +143,8 @@ func (e *Engine) typeSetOf(v ssa.Value, at *ssa.BasicBlock, seen map[ssa.Value]b
 			}
 		}
 	case *ssa.Extract:
-		if c, ok := x.Tuple.(*ssa.Call); ok && x.Index == 0 {
-			if ts, ok := e.callResultTypes(c, at, seen, depth); ok {
+		if c, ok := x.Tuple.(*ssa.Call); ok && !isErrorType(x.Type()) {
+			if ts, ok := e.callResultTypesAt(c, x.Index, at, seen, depth); ok {
 				return ts
 			}
 		}
@@ -284,6 +284,11 @@ func (e *Engine) callSites(fn *ssa.Function) []ssa.CallInstruction {
 // the arguments at the call site, or (b) return a non-nil error when the caller
 // is known (at block `at`) to have seen a nil error.
 func (e *Engine) callResultTypes(c *ssa.Call, at *ssa.BasicBlock, seen map[ssa.Value]bool, depth int) (typeSet, bool) {
+	return e.callResultTypesAt(c, 0, at, seen, depth)
+}
+
+// callResultTypesAt: the possible dynamic types of result number idx of a call of a module function.
+func (e *Engine) callResultTypesAt(c *ssa.Call, idx int, at *ssa.BasicBlock, seen map[ssa.Value]bool, depth int) (typeSet, bool) {
 	var s typeSet
 	callee := c.Call.StaticCallee()
 	if callee == nil || callee.Blocks == nil || !strings.HasPrefix(fnPkgPath(callee), modPath) || depth > 4 {
@@ -358,7 +363,10 @@ func (e *Engine) callResultTypes(c *ssa.Call, at *ssa.BasicBlock, seen map[ssa.V
 				continue
 			}
 		}
-		s.merge(e.typeSetOf(ret.Results[0], b, seen, depth+1))
+		if idx >= len(ret.Results) {
+			return s, false
+		}
+		s.merge(e.typeSetOf(ret.Results[idx], b, seen, depth+1))
 	}
 	return s, true
 }
